@@ -20,7 +20,7 @@ RULE = ("a case is (hash algorithm, secret p as text or bytes - empty, Unicode, 
         "dumps/loads in every format so the same challenges keep their outcome, and a plaintext written by hand into "
         "a document is hashed on load; non-trivial = non-empty p with >= 3 near misses judged; distinct = distinct "
         "case content")
-REQUIRED = ("digest_values_made_with_a_chosen_salt", "chosen_salts_refused", "secrets_of_round_sizes", "secrets_of_whole_mebibytes", "secrets_shaped_like_references", "printed_forms_parsed_back", "byte_secrets_that_are_not_utf8", "digest_values_with_other_salt_length", "plaintext_in_included_file_hashed", "same_field_reassignments", "env_bound_unset_variable", "reset_default_checks", "bulk_list_salt_checks", "digests_recomputed", "fresh_salt_checks", "challenge_accepts_p", "challenge_rejects_q", "leak_scans_memory",
+REQUIRED = ("sibling_text_lists_taken_over", "digest_values_made_with_a_chosen_salt", "chosen_salts_refused", "secrets_of_round_sizes", "secrets_of_whole_mebibytes", "secrets_shaped_like_references", "printed_forms_parsed_back", "byte_secrets_that_are_not_utf8", "digest_values_with_other_salt_length", "plaintext_in_included_file_hashed", "same_field_reassignments", "env_bound_unset_variable", "reset_default_checks", "bulk_list_salt_checks", "digests_recomputed", "fresh_salt_checks", "challenge_accepts_p", "challenge_rejects_q", "leak_scans_memory",
             "leak_scans_documents", "roundtrips_digest_unchanged", "plaintext_in_document_hashed", "alg:md5", "alg:sha1",
             "alg:sha224", "alg:sha256", "alg:sha384", "alg:sha512")
 ASSUMPTIONS = ["hashlib is the reference implementation of the six algorithms", "documents are produced/decoded with the "
@@ -44,7 +44,9 @@ def generate(rng, ctx):
     elif kind == "shaped":
         # secrets that look like other on-disk shapes: 'salt:digest' text, base64, JSON, key=value
         p = rng.choice(["pass:word", "abcd:efgh", ":", "QUJD:REVG", "a:b", "YWJj", "{\"salt\": \"x\"}", "salt=1;digest=2",
-                        "c2FsdA==:ZGlnZXN0", tok[:8] + ":" + tok[8:], "::", "=" * 4])
+                        "c2FsdA==:ZGlnZXN0", tok[:8] + ":" + tok[8:], "::", "=" * 4,
+                        # pasted multi-line passphrases: the line breaks and the indentation belong to the secret
+                        "\n" + tok + "\nsecond line\n", "\n", "\n  " + tok + "\n  ", "\r\n" + tok + "\r\n", "\t" + tok + "\n\t"])
     elif kind == "expands":
         # secrets that some layer might expand, substitute or unescape: environment references (HOME and PATH are set),
         # home directories, format directives, escapes, entities
@@ -173,6 +175,7 @@ def run(case, ctx, res):
     schema.sub.deep.pw = cc.ChallengeField(algname, **({"env": "VFC09_DEEP"} if envmode == "field-named" else {}))
     schema.items = cc.ListField(item)
     schema.pws = cc.ListField(cc.ChallengeField(algname))
+    schema.initial = cc.ListField(cc.StringField())  # a list of plain texts right next to the list of challenges
     schema.name = cc.StringField(default="n")
     schema.inc = cc.IncludeField()
 
@@ -301,9 +304,21 @@ def run(case, ctx, res):
         ops.append(("slice", cfg2.pws))
         cfg2.pws += (p, p)
         ops.append(("iadd", cfg2.pws))
+        if isinstance(p, str):
+            # the typed list of a sibling field (plain texts) is handed over as it is
+            cfg2.initial = [p, p]
+            cfg2.pws = cfg2.initial
+            ops.append(("assign-sibling", cfg2.pws))
+            cfg2.pws.extend(cfg2.initial)
+            ops.append(("extend-sibling", cfg2.pws))
+            cfg2.pws += cfg2.initial
+            ops.append(("iadd-sibling", cfg2.pws))
+            cfg2.pws[0:0] = cfg2.initial
+            ops.append(("slice-sibling", cfg2.pws))
+            res.count("sibling_text_lists_taken_over")
         for how, l in ops:
             mine = [bytes(x.salt) for x in l if isinstance(x, cc.DigestValue) and hashlib.new(alg, bytes(x.salt) + pb).digest() == bytes(x.digest)]
-            if len(mine) < 2:
+            if len(mine) < 2 or any(not isinstance(x, cc.DigestValue) for x in l):
                 res.viol("M-digest", "list-items-not-hashed:" + how, "%s: items of the challenge list are %r" % (how, _short(list(l))))
                 return
             if len(set(mine)) != len(mine):
